@@ -476,6 +476,12 @@ def rule_aspartix_grammar(ctx):
     for imp, b in prog.impl_methods(READER, "read"):
         if any(strip_generics(callee_name(callee_of(s)) or "") == strip_generics(readers["arg"][0].path) for s in b.calls()):
             rd = b
+    if rd is None:
+        for imp, b in prog.impl_methods(READER, "read"):
+            hs = [x for x in prog.reachable_from([b], virtual_dispatch=False).values() if x is not b and x.kind != "closure" and any(strip_generics(callee_name(callee_of(s)) or "") == strip_generics(readers["arg"][0].path) for s in x.calls())]
+            if hs:
+                r.ok("read-loop", "NOT decided: the line readers are called by %s, a helper of the reader (the three errors of the read loop are judged in a `read` that calls the line readers itself)" % hs[0].path.rsplit("::", 1)[-1], hs[0].loc())
+                return readers
     if r.require_anchor(rd, "InstanceReader::read calling the Aspartix line readers"):
         tmpls = [fs.template for fs in format_sites(rd)]
         msgs = set()
